@@ -43,7 +43,7 @@ type Case struct {
 	Rounds     int            `json:"rounds"` // every goroutine repeats its job this many times
 }
 
-var jobKinds = []string{"read-any", "reconstruct", "write", "read-rows", "read-rows", "read-pages", "read-index", "read-bloom", "column-writers", "rowgroups", "buffer-sort", "async-seek", "schema-of"}
+var jobKinds = []string{"write-reuse", "read-any", "reconstruct", "write", "read-rows", "read-rows", "read-pages", "read-index", "read-bloom", "column-writers", "rowgroups", "buffer-sort", "async-seek", "schema-of"}
 
 func genCase(t *rapid.T) Case {
 	var c Case
@@ -98,9 +98,10 @@ type world struct {
 	rows   []ref.V
 	prows  []parquet.Row
 	schema *parquet.Schema
-	data   []byte        // the shared file's bytes
-	file   *parquet.File // opened once, shared by all reader jobs
-	afile  *parquet.File // same bytes opened in asynchronous read mode
+	data   []byte             // the shared file's bytes
+	file   *parquet.File      // opened once, shared by all reader jobs
+	afile  *parquet.File      // same bytes opened in asynchronous read mode
+	pool   parquet.BufferPool // shared by the writers that defer their bloom filters
 }
 
 func digest(parts ...[]byte) string {
@@ -202,6 +203,28 @@ func (w *world) run(j Job) (string, error) {
 			return "", err
 		}
 		return digest(buf.Bytes()), nil
+	case "write-reuse":
+		// a writer that is closed, reset and used again; its bloom filters are deferred to the end
+		// of the file through a buffer pool that all such writers share
+		lo := j.Seed % (len(w.prows) + 1)
+		var b1, b2 bytes.Buffer
+		opts := append([]parquet.WriterOption{w.schema}, pq.Options(c.Opts, w.cols, "")...)
+		opts = append(opts, parquet.DeferBloomFiltersWithBuffers(w.pool), parquet.MaxRowsPerRowGroup(int64(20+j.N)))
+		wr := parquet.NewWriter(&b1, opts...)
+		if _, err := wr.WriteRows(w.prows[lo:]); err != nil {
+			return "", err
+		}
+		if err := wr.Close(); err != nil {
+			return "", err
+		}
+		wr.Reset(&b2)
+		if _, err := wr.WriteRows(w.prows[:lo]); err != nil {
+			return "", err
+		}
+		if err := wr.Close(); err != nil {
+			return "", err
+		}
+		return digest(b1.Bytes(), b2.Bytes()), nil
 	case "read-rows":
 		rgs := w.file.RowGroups()
 		rg := rgs[j.Seed%len(rgs)]
@@ -435,7 +458,7 @@ func (w *world) run(j Job) (string, error) {
 }
 
 func runCase(c Case, o *kit.Obs) *kit.Failure {
-	w := &world{c: c, cols: ref.Columns(&c.Schema)}
+	w := &world{c: c, cols: ref.Columns(&c.Schema), pool: parquet.NewBufferPool()}
 	w.rows = c.Plan.ExpandWith(&c.Schema)
 	w.prows = pq.Rows(&c.Schema, w.cols, w.rows)
 	w.schema = pq.BuildSchema(&c.Schema)
